@@ -444,13 +444,23 @@ theorem plainError_pres (c : Conn) : Pres c c.plainError.1 := by
         | none => exact pres_db c _ (hs.trans (rollback_shrinks db1))
     · exact Pres.refl c
 
+theorem kbiError_pres (c : Conn) : Pres c c.kbiError.1 := by
+  unfold Conn.kbiError
+  simp only []
+  split
+  · exact Pres.refl c
+  · exact ⟨wfc_congr rfl rfl rfl, kill_shrinks _⟩
+
 theorem dbapiError_pres (c : Conn) (k : FKind) : Pres c (c.dbapiError k).1 := by
   unfold Conn.dbapiError
   split
-  · exact discError_pres c
-  · cases k with
-    | disc => exact discError_pres c
-    | err => exact plainError_pres c
+  · exact kbiError_pres c
+  · split
+    · exact discError_pres c
+    · cases k with
+      | disc => exact discError_pres c
+      | err => exact plainError_pres c
+      | kbi => exact plainError_pres c
 
 theorem dbapiCall_pres (c : Conn) (p : FPoint) (f : DB → DB) (hf : ∀ db, Shrinks db (f db)) :
     Pres c (c.dbapiCall p f).1 := by
@@ -757,10 +767,13 @@ theorem plainError_ne_ok (c : Conn) : c.plainError.2 ≠ .ok := by
 theorem dbapiError_ne_ok (c : Conn) (k : FKind) : (c.dbapiError k).2 ≠ .ok := by
   unfold Conn.dbapiError
   split
-  · exact discError_ne_ok c
-  · cases k with
-    | disc => exact discError_ne_ok c
-    | err => exact plainError_ne_ok c
+  · simp [Conn.kbiError]
+  · split
+    · exact discError_ne_ok c
+    · cases k with
+      | disc => exact discError_ne_ok c
+      | err => exact plainError_ne_ok c
+      | kbi => exact plainError_ne_ok c
 
 /-- closing an ACTIVE root transaction without error while the DBAPI connection is still
     held means the ROLLBACK really happened -/
@@ -807,12 +820,23 @@ theorem release_inv {c : Conn} (b : Bool) (hi : Inv c) (hb : b = true → c.hasD
     obtain ⟨k1, k2, k3⟩ := checkin_clean_reset c.db b h3 (fun e => hb e hh) h2 h4
     exact ⟨wfc_congr (by rfl) (by rfl) (by rfl) h1, k1, by rw [k2]; exact h3, k3⟩
 
+theorem releaseOrInterrupt_inv {c : Conn} (b : Bool) (hi : Inv c)
+    (hb : b = true → c.hasDbapi = true → HeldClean c.db) : Inv (c.releaseOrInterrupt b).1 := by
+  unfold Conn.releaseOrInterrupt
+  split
+  · rename_i hcond
+    simp only [Bool.and_eq_true] at hcond
+    obtain ⟨h1, h2, h3, h4⟩ := hi
+    obtain ⟨k1, k2, k3⟩ := checkin_clean_reset c.db b h3 (fun e => hb e hcond.1) h2 h4
+    exact ⟨wfc_congr (by rfl) (by rfl) (by rfl) h1, k1, by rw [k2]; exact h3, k3⟩
+  · exact release_inv b hi hb
+
 theorem close_inv {c : Conn} (hi : Inv c) : Inv c.close.1 := by
   unfold Conn.close
   cases ht : c.transaction with
   | none =>
     simp only []
-    exact release_inv false hi (fun e => by cases e)
+    exact releaseOrInterrupt_inv false hi (fun e => by cases e)
   | some t =>
     simp only []
     have hp := tClose_pres c t
@@ -820,33 +844,30 @@ theorem close_inv {c : Conn} (hi : Inv c) : Inv c.close.1 := by
     | ok =>
       have e : c.tClose t = ((c.tClose t).1, .ok) := by rw [← hr]
       rw [e, andThen_ok]
-      refine release_inv _ (hp.inv hi) ?_
+      refine releaseOrInterrupt_inv _ (hp.inv hi) ?_
       intro hact hd
       have hroot := hi.1.1 t ht
       have e2 : c.tClose t = c.rootCloseImpl t false := by simp [Conn.tClose, hroot]
       rw [e2] at hr hd ⊢
       exact rootClose_heldClean c t false hact hr hd
     | _ =>
-      have : (andThen (c.tClose t) fun c1 => (c1.release (c.act t), Res.ok)) = c.tClose t := by
-        cases h' : c.tClose t with
-        | mk c1 r =>
-          rw [h'] at hr
-          simp only at hr
-          subst hr
-          rfl
-      rw [this]
+      rw [andThen_not_ok (by rw [hr]; simp)]
       exact hp.inv hi
 
 theorem gc_inv {c : Conn} (hi : Inv c) : Inv c.gc := by
   obtain ⟨_, h2, h3, h4⟩ := hi
   unfold Conn.gc
   refine ⟨wfc_empty rfl rfl rfl, ?_⟩
-  cases hh : c.hasDbapi with
-  | false => simp only [Bool.false_eq_true, if_false]; exact ⟨h2, h3, h4⟩
-  | true =>
-    simp only [if_true]
-    obtain ⟨k1, k2, k3⟩ := checkin_clean_reset c.db false h3 (fun e => by cases e) h2 h4
-    exact ⟨k1, by rw [k2]; exact h3, k3⟩
+  cases hz : c.zombie with
+  | true => simp only [if_true]; exact ⟨h2, h3, h4⟩
+  | false =>
+    simp only [Bool.false_eq_true, if_false]
+    cases hh : c.hasDbapi with
+    | false => simp only [Bool.false_eq_true, if_false]; exact ⟨h2, h3, h4⟩
+    | true =>
+      simp only [if_true]
+      obtain ⟨k1, k2, k3⟩ := checkin_clean_reset c.db false h3 (fun e => by cases e) h2 h4
+      exact ⟨k1, by rw [k2]; exact h3, k3⟩
 
 theorem connect_inv {db : DB} (h2 : PoolClean db) (h3 : db.reset ≠ .none) (h4 : HeldIso db) :
     Inv (Conn.connect db) :=
@@ -933,10 +954,16 @@ theorem release_wfc {c : Conn} (b : Bool) (hw : WFc c) : WFc (c.release b) := by
   · exact wfc_congr (by rfl) (by rfl) (by rfl) hw
   · exact wfc_congr (by rfl) (by rfl) (by rfl) hw
 
+theorem releaseOrInterrupt_wfc {c : Conn} (b : Bool) (hw : WFc c) : WFc (c.releaseOrInterrupt b).1 := by
+  unfold Conn.releaseOrInterrupt
+  split
+  · exact wfc_congr (by rfl) (by rfl) (by rfl) hw
+  · exact release_wfc b hw
+
 theorem close_wfc {c : Conn} (hw : WFc c) : WFc c.close.1 := by
   unfold Conn.close
   cases ht : c.transaction with
-  | none => exact release_wfc false hw
+  | none => exact releaseOrInterrupt_wfc false hw
   | some t =>
     simp only []
     have hp := (tClose_pres c t).root hw
@@ -944,7 +971,7 @@ theorem close_wfc {c : Conn} (hw : WFc c) : WFc c.close.1 := by
     | ok =>
       have e : c.tClose t = ((c.tClose t).1, .ok) := by rw [← hr]
       rw [e, andThen_ok]
-      exact release_wfc _ hp
+      exact releaseOrInterrupt_wfc _ hp
     | _ =>
       rw [andThen_not_ok (by rw [hr]; simp)]
       exact hp
